@@ -761,3 +761,19 @@ func CreateUpdateMsgFromPaths(pathList []*Path, options ...*bgp.MarshallingOptio
 	}
 	return msgs
 }
+
+// DiscardAs4Attrs removes AS4_PATH and AS4_AGGREGATOR from an UPDATE received
+// from a peer that speaks 4-octet AS numbers: RFC 6793 Section 6 - a NEW
+// speaker that receives them from another NEW speaker discards them and goes
+// on with the UPDATE.
+func DiscardAs4Attrs(msg *bgp.BGPUpdate) {
+	kept := make([]bgp.PathAttributeInterface, 0, len(msg.PathAttributes))
+	for _, attr := range msg.PathAttributes {
+		switch attr.(type) {
+		case *bgp.PathAttributeAs4Path, *bgp.PathAttributeAs4Aggregator:
+			continue
+		}
+		kept = append(kept, attr)
+	}
+	msg.PathAttributes = kept
+}
